@@ -80,3 +80,14 @@ Definition run (c : case) : obs :=
         ores (olist OZ) (get_rank p crit c))
   | KChain w start path term vals role => ores (olist OZ) (run_chain w start path term vals role)
   end.
+
+(** Several operations requested one after the other on ONE simulation (the
+    implementation may keep state between them -- caches of role filters, members maps;
+    the model is pure, so the expected answers are those of the single operations). *)
+Inductive mcase := One (c : case) | Multi (cs : list case).
+
+Definition run_m (m : mcase) : obs :=
+  match m with
+  | One c => run c
+  | Multi cs => OL (map run cs)
+  end.
